@@ -85,6 +85,7 @@ class Contract:
     def __init__(self, target, params, requires=None, modifies=None, cases=None, props=(), trusted=False,
                  defaults=None, note="", selfcls=None, allocates=False, ghost_update=None, time=None, probes=None, linearize_at_lock=False):
         self.linearize_at_lock = linearize_at_lock  # pre-state of the post = state at the first monitor-lock acquisition
+        self.stable_at_acquire = None  # (a, h_after) -> [z3]: facts about shared state only this thread can invalidate (Owicki-Gries stability, listed as assumptions)
         self.probes = probes  # (a, h) -> {name: z3 term}: values wanted in counter-models
         self.target = target
         self.params: dict[str, Ty] = dict(params)
@@ -111,6 +112,7 @@ class LoopSpec:
     def __init__(self, target, ordinal, invariant, variant=None, havoc_fields=(), props=(), havoc_cells=None):
         self.target, self.ordinal = target, ordinal
         self.havoc_cells = havoc_cells  # (L) -> [(cls, ref, field)]: only these cells change in the loop
+        self.invariant_assume = None  # (L) -> [z3]: generalisations (over free index constants) of proved invariants; only assumed
         self.invariant = invariant  # (L) -> [(label, z3 Bool)]
         self.variant = variant  # (L) -> z3 Int
         self.havoc_fields = tuple(havoc_fields)
